@@ -407,6 +407,34 @@ class VQueue:
                              "queue.join")
 
 
+class _HeapList(list):
+    """list with deque's popleft/append, kept as a heap: the smallest item leaves first (queue.PriorityQueue)"""
+    def append(self, item):
+        import heapq
+        heapq.heappush(self, item)
+
+    def popleft(self):
+        import heapq
+        return heapq.heappop(self)
+
+
+class _StackList(list):
+    def popleft(self):
+        return self.pop()
+
+
+class VPriorityQueue(VQueue):
+    def __init__(self, maxsize=0):
+        VQueue.__init__(self, maxsize)
+        self.queue = _HeapList()
+
+
+class VLifoQueue(VQueue):
+    def __init__(self, maxsize=0):
+        VQueue.__init__(self, maxsize)
+        self.queue = _StackList()
+
+
 # ================================================================== build
 _SOCKET_CONSTANTS = {name: getattr(_rs, name) for name in dir(_rs)
                      if name.isupper() and isinstance(getattr(_rs, name), int)}
@@ -471,6 +499,9 @@ def build(sim):
     # ---------------------------------------------------------------- queue
     q = _VModule("queue")
     q.Queue = _bind(VQueue, sim, "Queue")
+    q.PriorityQueue = _bind(VPriorityQueue, sim, "PriorityQueue")
+    q.LifoQueue = _bind(VLifoQueue, sim, "LifoQueue")
+    q.SimpleQueue = _bind(VQueue, sim, "SimpleQueue")
     q.Empty = _rq.Empty
     q.Full = _rq.Full
 
